@@ -307,7 +307,21 @@ def gen_nspec(rng, ms, malformed=False):
     if kind == "one":
         return dict(k="arr", shape=[1], data=[Q(gen_target(rng))], **{"as": "list"})
     scale = Fraction(2) ** rng.choice([0, 0, 0, -3, 6, 40])
-    return dict(k="poly", terms=gen_poly(rng, ms, scale))
+    terms = gen_poly(rng, ms, scale)
+    spec = dict(k="poly", terms=terms)
+    if rng.random() < 0.5:
+        # a function that returns a Python int wherever its value is a whole number - made so at the first cell (lowest
+        # corner, the first one the library asks for) - and floats elsewhere: the element type of the answers says
+        # nothing about the other cells
+        lo = [min(Fraction(a), Fraction(b)) for a, b in zip(ms["p1"], ms["p2"])]
+        hi = [max(Fraction(a), Fraction(b)) for a, b in zip(ms["p1"], ms["p2"])]
+        c0 = [a + (b - a) / k / 2 for a, b, k in zip(lo, hi, n)]
+        v0 = poly_eval_frac(terms, c0)
+        frac = v0 - (v0.numerator // v0.denominator)
+        if frac != 0:
+            spec["terms"] = terms + [dict(c=Q(-frac), e=[0] * len(n))]
+        spec["ret"] = "int-where-whole"
+    return spec
 
 
 def gen_vspec(rng, ms, nv, malformed=False):
@@ -495,6 +509,11 @@ def py_nspec(s):
         a = np.array([[fl(x) for x in row] for row in s["data"]], dtype=float).reshape(*s["mesh"]["n"], nv)
         return df.Field(hm, nvdim=nv, value=a)
     terms = s["terms"]
+    if s.get("ret") == "int-where-whole":
+        def fn(p):
+            v = poly_eval_float(terms, p)
+            return int(v) if float(v).is_integer() and abs(v) < 2 ** 53 else v
+        return fn
     return lambda p: poly_eval_float(terms, p)
 
 
